@@ -22,6 +22,8 @@ func main() {
 			subC06(flag.Args())
 		case "c19stress":
 			subC19Stress(flag.Args())
+		case "c19closerace":
+			subC19CloseRace(flag.Args())
 		case "userpanic":
 			subUserPanic(flag.Args())
 		case "rawpeer":
@@ -139,7 +141,7 @@ func main() {
 	}
 	switch prop {
 	case "C01", "C09", "C10":
-		dur := 1200 * time.Millisecond
+		dur := 2500 * time.Millisecond
 		if *tier == "thorough" {
 			dur = 8 * time.Second
 		}
